@@ -73,6 +73,7 @@ fn main() {
                 let cmd = current.lock().unwrap().clone();
                 let mut ev = cmd;
                 ev["ret"] = json!("timeout");
+                ev["rc"] = json!("timeout");
                 let mut o = out.lock().unwrap();
                 let _ = writeln!(o, "{}", ev);
                 let _ = o.flush();
